@@ -51,7 +51,7 @@ SPECS = {
   "passes": [codec("^TestC17$")],
   "rule": "family decode/alpha: the C16 input mix, each with a seeded plan of callback results (nil / attribute-discard / treat-as-withdraw / *Notification / foreign / errors.Join / %w-wrapped / other UpdateError, at any callback position); "
           "oracle = nil-ness, strongest class in the returned tree, containment (by identity) of every callback error, callbacks stopping after a session-reset-class error, Missing Well-known Attribute fallback, "
-          "and UpdateNotificationFromErr vs a reference pre-order walk. family trees: every error tree with <= 6 (quick) / <= 7 (thorough) nodes over 6 leaf kinds and {%w wrap, Join of 2, Join of 3} (exhaustive); "
+          "and UpdateNotificationFromErr vs a reference pre-order walk. family trees: every error tree with <= 5 (quick) / <= 6 (thorough) nodes over 6 leaf kinds and {%w wrap, plugin-defined UpdateError with its own Unwrap, Join of 2, Join of 3} (exhaustive); "
           "family randtrees: random trees of 8-12 nodes. distinct_nontrivial = distinct (partition class x callback plan) classes and sampled distinct tree shapes.",
   "exhaustive_note": "family trees enumerates all trees up to the stated node count; family alpha all alphabet strings up to length 4/5",
   "assumptions": ["reference classifier and reference tree walk in checks/codec/c16_c17_test.go + internal/ref/update.go are the trusted base"],
